@@ -268,7 +268,7 @@ def read_sched(tracefile):
         for line in open(p):
             f = line.rstrip('\n').split('\t')
             if len(f) >= 5:
-                m[int(f[0])] = (f[1], f[2], f[3], f[4])
+                m[int(f[0])] = (f[1], f[2], f[3], f[4], int(f[5]) if len(f) > 5 else 2)
     return m
 
 
@@ -367,9 +367,9 @@ def validate(ctx, name, module, xs, consts, chunk=1500, tmo=900, constraints=('P
 
 def write_replay(ctx, tag, driver, module, consts, diag, num, extra_args=''):
     """replay file for a rejected execution; returns path"""
-    prog, outcome, dec, tids = diag['sched'] if diag.get('sched') else ('', '', '#DEC', '#TIDS')
+    prog, outcome, dec, tids, pbv = diag['sched'] if diag.get('sched') else ('', '', '#DEC', '#TIDS', 2)
     body = {'property': ctx.pid, 'driver': driver, 'trace_spec': module, 'consts': consts, 'program': prog,
-            'dec': dec, 'tids': tids, 'outcome': outcome, 'furthest_record': diag.get('record'),
+            'dec': dec, 'tids': tids, 'pb': pbv, 'outcome': outcome, 'furthest_record': diag.get('record'),
             'history': diag.get('lines'), 'extra_args': extra_args}
     h = hashlib.sha1(json.dumps(body, sort_keys=True).encode()).hexdigest()[:10]
     p = os.path.join(REPLAYS, '%s_%s_%s.json' % (ctx.pid, tag, h))
@@ -388,7 +388,7 @@ def replay(ctx, path, steps=False):
     rf = os.path.join(d, 'replay.txt')
     open(rf, 'w').write(body['program'] + '\n' + body['dec'] + '\n')
     out = os.path.join(d, 'traces.ndjson')
-    cmd = 'timeout 120 %s --mode replay --replay %s --out %s %s %s' % (os.path.join(BUILD, body['driver']), rf, out,
+    cmd = 'timeout 120 %s --mode replay --replay %s --out %s --pb %d %s %s' % (os.path.join(BUILD, body['driver']), rf, out, body.get('pb', 2),
                                                                         '--steps' if steps else '', body.get('extra_args', ''))
     rc, o = sh(cmd, tmo=150)
     m = re.search(r'XVSUMMARY (\{.*\})', o)
@@ -579,29 +579,36 @@ def symbolize(binary, pcs):
         for p in todo:
             key = '0x%016x' % (int(p, 16) - 1)
             best = ('?', '?', 0)
+            ctx = []
             for fn, loc in frames.get(key, []):
                 if '/xenium/' in loc and not fn.startswith(WRAPPERS):
                     f, _, ln = loc.partition(':')
                     ln = int(re.sub(r'\D.*$', '', ln) or 0)
-                    best = (simplify_fn(fn), f[f.index('/xenium/') + 1:], ln)
-                    break
-            _symcache[(binary, p)] = best
+                    if best[0] == '?':
+                        best = (simplify_fn(fn), f[f.index('/xenium/') + 1:], ln)
+                    # container-level context: frames outside the reclamation layer and its helpers
+                    if '/xenium/reclamation/' not in loc and '/xenium/acquire_guard.hpp' not in loc:
+                        ctx.append(simplify_fn(fn))
+            _symcache[(binary, p)] = best + ('<'.join(ctx),)
     return {p: _symcache[(binary, p)] for p in pcs}
 
 
 def label_steps(binary, tracefile, outfile):
     """adds fn / ln fields to step events (and to all other records, empty) so that records stay uniform"""
     recs = [json.loads(l) for l in open(tracefile) if l.strip()]
-    pcs = sorted({r['pc'] for r in recs if 'pc' in r})
+    pcs = sorted({p for r in recs if 'pc' in r for p in r['pc'].split(',')})
     sym = symbolize(binary, pcs)
     with open(outfile, 'w') as f:
         for r in recs:
             if 'pc' in r:
-                fn, fl, ln = sym[r['pc']]
-                r['fn'], r['ln'] = fn, ln
+                chain = r['pc'].split(',')
+                fn, fl, ln, cx = sym[chain[0]]
+                # call-stack events (uaf): container context over the whole stack
+                cx = '<'.join(x for x in [sym[c][3] for c in chain] if x)
+                r['fn'], r['ln'], r['ctx'] = fn, ln, cx
                 del r['pc']
             else:
-                r['fn'], r['ln'] = '', 0
+                r['fn'], r['ln'], r['ctx'] = '', 0, ''
             f.write(json.dumps(r, separators=(',', ':')) + '\n')
     return recs
 
@@ -635,11 +642,11 @@ def match_known_batch(ctx, driver, tracefile, nums, pred_names, extra_args='', t
         for num in nums:
             if num not in sched:
                 continue
-            prog, outcome, dec, tids = sched[num]
+            prog, outcome, dec, tids, pbv = sched[num]
             rf = os.path.join(d, 'replay.txt')
             open(rf, 'w').write(prog + '\n' + dec + '\n')
             out = os.path.join(d, 'steps.ndjson')
-            rc, o = sh('timeout 120 %s --mode replay --replay %s --out %s --steps %s' % (os.path.join(BUILD, driver), rf, out, extra_args), tmo=150)
+            rc, o = sh('timeout 120 %s --mode replay --replay %s --out %s --pb %d --steps %s' % (os.path.join(BUILD, driver), rf, out, pbv, extra_args), tmo=150)
             if 'XVSUMMARY' not in o:
                 raise Infra('step replay failed')
             lab = os.path.join(d, 'lab.ndjson')
